@@ -148,7 +148,17 @@ func sequence(r *rep.Report, rng *prng.R) {
 	mode := rng.Intn(4)
 	chunks := lconn.Chunk(append([]byte{}, stream...), mode, bounds, func() int { return rng.Pick(1, 2, 3, 5, 7, 13, 64, 500) })
 	conn := lconn.NewScript(chunks)
-	ch := p9p.NewChannel(conn, msize)
+	var ch p9p.Channel
+	switch rng.Intn(3) { // the msize is reached directly or through SetMSize, as negotiation does
+	case 0:
+		ch = p9p.NewChannel(conn, msize)
+	case 1:
+		ch = p9p.NewChannel(conn, msize+rng.Pick(1, 4, 100, 65536))
+		ch.SetMSize(msize)
+	default:
+		ch = p9p.NewChannel(conn, msize/2)
+		ch.SetMSize(msize)
+	}
 	reads := nframes + 2
 	c := sx.L(sx.Sym("read"), sx.I(int64(msize)), sx.I(int64(reads)), sx.B(stream), sx.I(int64(mode)))
 	var obs []sx.S
